@@ -296,3 +296,803 @@ Proof.
   destruct Hl as (Hg & Hsep & _).
   apply (flat_fields_reach d Hflat Hwf (gap l) 0 [] Hg Hsep).
 Qed.
+
+(* ------------------------------------------------------------------ token steps: containers *)
+Lemma step_kvs_brace g rest m p t :
+  gap_ok g ->
+  step (mkps (g ++ 123%N :: rest) SKvs m p t) = Next (mkps (123%N :: rest) SObjVal m p t).
+Proof.
+  intros Hg. unfold step. cbn [pdata pst_ pmixed pparent ptape].
+  rewrite skip_ws_gap_sig by (assumption || reflexivity). reflexivity.
+Qed.
+
+Lemma step_objval_open g rest m p t :
+  gap_ok g ->
+  step (mkps (g ++ 123%N :: rest) SObjVal m p t) = Next (mkps rest SOpen m p (tpush t (TArray 0 false))).
+Proof.
+  intros Hg. unfold step. cbn [pdata pst_ pmixed pparent ptape].
+  rewrite skip_ws_gap_sig by (assumption || reflexivity). reflexivity.
+Qed.
+
+Lemma step_arrval_open g rest m p t :
+  gap_ok g ->
+  step (mkps (g ++ 123%N :: rest) SArrVal m p t) = Next (mkps rest SOpen m p (tpush t (TArray 0 false))).
+Proof.
+  intros Hg. unfold step. cbn [pdata pst_ pmixed pparent ptape].
+  rewrite skip_ws_gap_sig by (assumption || reflexivity). reflexivity.
+Qed.
+
+Lemma length_snoc {A} (T : list A) x : length (T ++ [x]) = S (length T).
+Proof. rewrite app_length. cbn. lia. Qed.
+
+(* `{}`: the pending placeholder is closed at once *)
+Lemma step_open_close g rest m p T x st' m' :
+  gap_ok g -> restore (T ++ [x]) p = (st', m') ->
+  step (mkps (g ++ 125%N :: rest) SOpen m p (T ++ [x])) =
+  Next (mkps rest st' m' p (T ++ [TArray (S (length T)) false; TEnd (length T)])).
+Proof.
+  intros Hg Hr. unfold step. cbn [pdata pst_ pmixed pparent ptape].
+  rewrite skip_ws_gap_sig by (assumption || reflexivity).
+  cbn [beq N.eqb Pos.eqb]. rewrite length_snoc, Hr, tset_app. unfold tpush. rewrite <- app_assoc. reflexivity.
+Qed.
+
+Definition obj_byte (c : N) : bool := beq c 61 || beq c 62 || beq c 60.
+
+(* first scalar after `{`: the next significant byte decides object / array *)
+Lemma step_open_scalar g k s rest p T x c2 r2 :
+  gap_ok g -> wf_scalar k s = true -> (k = Unq -> starts_boundary rest) ->
+  skip_ws_t rest = Some (c2 :: r2) ->
+  step (mkps (g ++ scalar_bytes k s ++ rest) SOpen false p (T ++ [x])) =
+  Next (if obj_byte c2
+        then mkps (c2 :: r2) SKvs false (length T) (T ++ [TObject p false; scalar_tok k s])
+        else mkps (c2 :: r2) SArrVal false (length T) (T ++ [TArray p false; scalar_tok k s])).
+Proof.
+  intros Hg Hwf Hsep Hsk. destruct (scalar_step_ok k s rest Hwf Hsep) as (c & d1 & -> & Hst & Hstep).
+  use_start Hst. unfold step. cbn [pdata pst_ pmixed pparent ptape].
+  rewrite skip_ws_gap_sig by assumption. rewrite H125, H91, H123, Hstep, Hsk.
+  unfold tpush. rewrite <- app_assoc. cbn [app].
+  assert (Hlen : length (T ++ [x; scalar_tok k s]) = S (S (length T))) by (rewrite app_length; cbn; lia).
+  rewrite Hlen. cbn [Nat.ltb Nat.leb Nat.sub]. rewrite Nat.sub_0_r.
+  unfold obj_byte. destruct (beq c2 61 || beq c2 62 || beq c2 60); rewrite tset_app; reflexivity.
+Qed.
+
+(* `{` directly after `{` (not a ghost `{}`): the outer one is an array *)
+Lemma step_open_brace g rest m p T x c2 r2 :
+  gap_ok g -> skip_ws_t rest = Some (c2 :: r2) -> c2 <> 125%N ->
+  step (mkps (g ++ 123%N :: rest) SOpen m p (T ++ [x])) =
+  Next (mkps (123%N :: rest) SArrVal false (length T) (T ++ [TArray p false])).
+Proof.
+  intros Hg Hsk Hc2. unfold step. cbn [pdata pst_ pmixed pparent ptape].
+  rewrite skip_ws_gap_sig by (assumption || reflexivity).
+  cbn [beq N.eqb Pos.eqb]. rewrite Hsk.
+  assert (E : match c2 :: r2 with 125%N :: d3 => Next (mkps d3 SOpen m p (T ++ [x])) | _ =>
+              match length (T ++ [x]) with
+              | 0 => Crash 3029
+              | S ind => match tset (T ++ [x]) ind (TArray p false) with
+                         | Some t' => Next (mkps (123%N :: rest) SArrVal false ind t')
+                         | None => Crash 3030 end end end =
+              Next (mkps (123%N :: rest) SArrVal false (length T) (T ++ [TArray p false]))).
+  { rewrite length_snoc, tset_app.
+    destruct c2 as [|pc]; [reflexivity|]. repeat (destruct pc as [pc|pc|]; try reflexivity). congruence. }
+  exact E.
+Qed.
+
+Lemma nth_error_mid {A} (T : list A) x U : nth_error (T ++ x :: U) (length T) = Some x.
+Proof. rewrite nth_error_app2 by lia. rewrite Nat.sub_diag. reflexivity. Qed.
+
+(* `}` closing an object (state Key) *)
+Lemma step_key_close g rest m T gp U st' m' :
+  gap_ok g -> T <> [] -> restore (T ++ TObject gp false :: U) gp = (st', m') ->
+  step (mkps (g ++ 125%N :: rest) SKey m (length T) (T ++ TObject gp false :: U)) =
+  Next (mkps rest st' m' gp (T ++ TObject (length T + 1 + length U) m :: U ++ [TEnd (length T)])).
+Proof.
+  intros Hg HT Hr. unfold step. cbn [pdata pst_ pmixed pparent ptape].
+  rewrite skip_ws_gap_sig by (assumption || reflexivity).
+  cbn [beq N.eqb Pos.eqb orb]. unfold slot, tget. rewrite nth_error_mid, Hr.
+  assert (length T =? 0 = false) as -> by (apply Nat.eqb_neq; destruct T; [congruence | discriminate]).
+  cbn [andb]. unfold tpush. rewrite <- app_assoc. cbn [app]. rewrite tset_app.
+  rewrite !app_length. cbn [length].
+  replace (length T + S (length U)) with (length T + 1 + length U) by lia. reflexivity.
+Qed.
+
+(* `}` closing an array or a mixed container (state ArrayValue) *)
+Lemma step_arrval_close g rest m T gp f U st' m' (is_arr : bool) :
+  gap_ok g -> T <> [] ->
+  restore (T ++ (if is_arr then TArray gp f else TObject gp f) :: U) gp = (st', m') ->
+  step (mkps (g ++ 125%N :: rest) SArrVal m (length T) (T ++ (if is_arr then TArray gp f else TObject gp f) :: U)) =
+  Next (mkps rest st' m' gp
+          (T ++ (if is_arr then TArray (length T + 1 + length U) m else TObject (length T + 1 + length U) m) :: U ++ [TEnd (length T)])).
+Proof.
+  intros Hg HT Hr. unfold step. cbn [pdata pst_ pmixed pparent ptape].
+  rewrite skip_ws_gap_sig by (assumption || reflexivity).
+  cbn [beq N.eqb Pos.eqb orb]. unfold tget. rewrite nth_error_mid.
+  assert (Hn : length T =? 0 = false) by (apply Nat.eqb_neq; destruct T; [congruence | discriminate]).
+  destruct is_arr; rewrite Hr, Hn; cbn [andb]; rewrite tset_app; unfold tpush;
+    rewrite !app_length; cbn [length]; rewrite <- app_assoc; cbn [app];
+    replace (length T + S (length U)) with (length T + 1 + length U) by lia; reflexivity.
+Qed.
+
+(* `{` in state Key after an unquoted value: the value becomes a header *)
+Lemma step_key_header g rest m p T h c2 r2 :
+  gap_ok g -> skip_ws_t rest = Some (c2 :: r2) -> c2 <> 125%N ->
+  step (mkps (g ++ 123%N :: rest) SKey m p (T ++ [TUnquoted h])) =
+  Next (mkps (c2 :: r2) SOpen m p (T ++ [THeader h; TArray 0 false])).
+Proof.
+  intros Hg Hsk Hc2. unfold step. cbn [pdata pst_ pmixed pparent ptape].
+  rewrite skip_ws_gap_sig by (assumption || reflexivity).
+  cbn [beq N.eqb Pos.eqb orb]. rewrite Hsk.
+  assert (E : forall X, match c2 :: r2 with 125%N :: d3 => Next (mkps d3 SKey m p (T ++ [TUnquoted h])) | _ => X end = X).
+  { intros X. destruct c2 as [|pc]; [reflexivity|]. repeat (destruct pc as [pc|pc|]; try reflexivity). congruence. }
+  rewrite E. unfold tlast. rewrite length_snoc. cbn [Nat.sub]. rewrite Nat.sub_0_r, nth_error_mid, tset_app.
+  unfold tpush. rewrite <- app_assoc. reflexivity.
+Qed.
+
+(* ------------------------------------------------------------------ reach versions (with the measure) *)
+Lemma skip_ws_idem d d' : skip_ws_t d = Some d' -> skip_ws_t d' = skip_ws_t d.
+Proof. intros H. rewrite H. eapply skip_ws_c_some. exact H. Qed.
+
+Ltac meas_tac := unfold meas; cbn [pdata pst_ phi]; rewrite ?app_length; cbn [length]; try lia.
+
+Lemma phi_le1 st : phi st <= 1.
+Proof. destruct st; cbn; lia. Qed.
+
+Lemma reach_scalar (c : pst) g k s rest m p t st' :
+  gap_ok g -> wf_scalar k s = true -> (k = Unq -> starts_boundary rest) ->
+  step (mkps (g ++ scalar_bytes k s ++ rest) c m p t) = Next (mkps rest st' m p (tpush t (scalar_tok k s))) ->
+  reaches (mkps (g ++ scalar_bytes k s ++ rest) c m p t) (mkps rest st' m p (tpush t (scalar_tok k s))).
+Proof.
+  intros Hg Hwf Hsep Hstep. eapply reaches_step; [exact Hstep | apply same_upto_ws_refl |].
+  destruct (scalar_bytes_hd _ _ Hwf) as (ck & rk & Ek & _). meas_tac. rewrite Ek. cbn [length].
+  pose proof (phi_le1 st'). lia.
+Qed.
+
+Lemma reach_key_scalar g k s rest m p t :
+  gap_ok g -> wf_scalar k s = true -> (k = Unq -> starts_boundary rest) ->
+  reaches (mkps (g ++ scalar_bytes k s ++ rest) SKey m p t) (mkps rest SKvs m p (tpush t (scalar_tok k s))).
+Proof. intros. apply reach_scalar; auto. apply step_key_scalar; auto. Qed.
+
+Lemma reach_objval_scalar g k s rest m p t :
+  gap_ok g -> wf_scalar k s = true -> (k = Unq -> starts_boundary rest) ->
+  reaches (mkps (g ++ scalar_bytes k s ++ rest) SObjVal m p t) (mkps rest SKey m p (tpush t (scalar_tok k s))).
+Proof. intros. apply reach_scalar; auto. apply step_objval_scalar; auto. Qed.
+
+Lemma reach_arrval_scalar g k s rest m p t :
+  gap_ok g -> wf_scalar k s = true -> (k = Unq -> starts_boundary rest) ->
+  reaches (mkps (g ++ scalar_bytes k s ++ rest) SArrVal m p t) (mkps rest SArrVal m p (tpush t (scalar_tok k s))).
+Proof. intros. apply reach_scalar; auto. apply step_arrval_scalar; auto. Qed.
+
+Lemma reach_kvs_op g o rest p t :
+  gap_ok g -> hdP (fun c => c <> 61%N) rest ->
+  reaches (mkps (g ++ op_symbol o ++ rest) SKvs false p t) (mkps rest SObjVal false p (t ++ op_toks false (Some o))).
+Proof.
+  intros Hg Hr. eapply reaches_step; [apply step_kvs_op; assumption | apply same_upto_ws_refl |].
+  meas_tac.
+Qed.
+
+Lemma reach_kvs_brace g rest m p t :
+  gap_ok g ->
+  reaches (mkps (g ++ 123%N :: rest) SKvs m p t) (mkps (g ++ 123%N :: rest) SObjVal m p t).
+Proof.
+  intros Hg. eapply reaches_step; [apply step_kvs_brace; assumption | | meas_tac].
+  repeat split. cbn [pdata]. rewrite skip_ws_gap_sig by (assumption || reflexivity). reflexivity.
+Qed.
+
+Lemma reach_val_open (c : bool) g rest m p t :
+  gap_ok g ->
+  reaches (mkps (g ++ 123%N :: rest) (if c then SObjVal else SArrVal) m p t) (mkps rest SOpen m p (tpush t (TArray 0 false))).
+Proof.
+  intros Hg. eapply reaches_step; [| apply same_upto_ws_refl |].
+  - destruct c; [apply step_objval_open | apply step_arrval_open]; assumption.
+  - meas_tac.
+Qed.
+
+Lemma reach_open_close g rest m p T x st' m' :
+  gap_ok g -> restore (T ++ [x]) p = (st', m') ->
+  reaches (mkps (g ++ 125%N :: rest) SOpen m p (T ++ [x]))
+          (mkps rest st' m' p (T ++ [TArray (S (length T)) false; TEnd (length T)])).
+Proof.
+  intros Hg Hr. eapply reaches_step; [apply step_open_close; eassumption | apply same_upto_ws_refl |].
+  meas_tac. pose proof (phi_le1 st'). lia.
+Qed.
+
+Lemma reach_open_scalar g k s rest p T x c2 r2 :
+  gap_ok g -> wf_scalar k s = true -> (k = Unq -> starts_boundary rest) ->
+  skip_ws_t rest = Some (c2 :: r2) ->
+  reaches (mkps (g ++ scalar_bytes k s ++ rest) SOpen false p (T ++ [x]))
+          (if obj_byte c2
+           then mkps rest SKvs false (length T) (T ++ [TObject p false; scalar_tok k s])
+           else mkps rest SArrVal false (length T) (T ++ [TArray p false; scalar_tok k s])).
+Proof.
+  intros Hg Hwf Hsep Hsk. eapply reaches_step; [apply step_open_scalar; eassumption | |].
+  - destruct (obj_byte c2); repeat split; cbn [pdata]; apply skip_ws_idem; exact Hsk.
+  - destruct (scalar_bytes_hd _ _ Hwf) as (ck & rk & Ek & _).
+    destruct (obj_byte c2); meas_tac; rewrite Ek; cbn [length]; lia.
+Qed.
+
+Lemma reach_open_brace g rest m p T x c2 r2 :
+  gap_ok g -> skip_ws_t rest = Some (c2 :: r2) -> c2 <> 125%N ->
+  reaches (mkps (g ++ 123%N :: rest) SOpen m p (T ++ [x]))
+          (mkps (g ++ 123%N :: rest) SArrVal false (length T) (T ++ [TArray p false])).
+Proof.
+  intros Hg Hsk Hc2. eapply reaches_step; [eapply step_open_brace; eassumption | | meas_tac].
+  repeat split. cbn [pdata]. rewrite skip_ws_gap_sig by (assumption || reflexivity). reflexivity.
+Qed.
+
+Lemma reach_key_close g rest m T gp U st' m' :
+  gap_ok g -> T <> [] -> restore (T ++ TObject gp false :: U) gp = (st', m') ->
+  reaches (mkps (g ++ 125%N :: rest) SKey m (length T) (T ++ TObject gp false :: U))
+          (mkps rest st' m' gp (T ++ TObject (length T + 1 + length U) m :: U ++ [TEnd (length T)])).
+Proof.
+  intros Hg HT Hr. eapply reaches_step; [apply step_key_close; eassumption | apply same_upto_ws_refl |].
+  meas_tac. pose proof (phi_le1 st'). lia.
+Qed.
+
+Lemma reach_arrval_close g rest m T gp f U st' m' (is_arr : bool) :
+  gap_ok g -> T <> [] ->
+  restore (T ++ (if is_arr then TArray gp f else TObject gp f) :: U) gp = (st', m') ->
+  reaches (mkps (g ++ 125%N :: rest) SArrVal m (length T) (T ++ (if is_arr then TArray gp f else TObject gp f) :: U))
+          (mkps rest st' m' gp
+             (T ++ (if is_arr then TArray (length T + 1 + length U) m else TObject (length T + 1 + length U) m) :: U ++ [TEnd (length T)])).
+Proof.
+  intros Hg HT Hr. eapply reaches_step; [apply step_arrval_close; eassumption | apply same_upto_ws_refl |].
+  meas_tac. pose proof (phi_le1 st'). lia.
+Qed.
+
+Lemma reach_key_header g rest m p T h c2 r2 :
+  gap_ok g -> skip_ws_t rest = Some (c2 :: r2) -> c2 <> 125%N ->
+  reaches (mkps (g ++ 123%N :: rest) SKey m p (T ++ [TUnquoted h]))
+          (mkps rest SOpen m p (T ++ [THeader h; TArray 0 false])).
+Proof.
+  intros Hg Hsk Hc2. eapply reaches_step; [eapply step_key_header; eassumption | | meas_tac].
+  repeat split. cbn [pdata]. apply skip_ws_idem. exact Hsk.
+Qed.
+
+(* ------------------------------------------------------------------ value contexts *)
+(* a value is read either as the value of a field (ObjVal -> Key) or as an array item
+   (ArrVal -> ArrVal); [ctx_ok] is what the restore-after-close code needs to come back there *)
+Inductive vctx := CObj | CArr.
+Definition pre_st (c : vctx) : pst := match c with CObj => SObjVal | CArr => SArrVal end.
+Definition post_st (c : vctx) : pst := match c with CObj => SKey | CArr => SArrVal end.
+Definition is_cont_tok (x : ttok) : bool := match x with TArray _ _ | TObject _ _ => true | _ => false end.
+
+Definition ctx_ok (c : vctx) (T : ttape) (p : nat) : Prop :=
+  match c with
+  | CObj => (p = 0 /\ exists x T', T = x :: T' /\ is_cont_tok x = false) \/
+            (exists gp, nth_error T p = Some (TObject gp false))
+  | CArr => exists gp, nth_error T p = Some (TArray gp false)
+  end.
+
+Lemma nth_error_app_some {A} (T X : list A) p x : nth_error T p = Some x -> nth_error (T ++ X) p = Some x.
+Proof. intros H. rewrite nth_error_app1; [exact H|]. apply nth_error_Some. congruence. Qed.
+
+Lemma ctx_ok_app c T p X : ctx_ok c T p -> ctx_ok c (T ++ X) p.
+Proof.
+  destruct c; cbn [ctx_ok].
+  - intros [(-> & x & T' & -> & Hx) | (gp & H)].
+    + left. split; [reflexivity|]. exists x, (T' ++ X). split; [reflexivity | exact Hx].
+    + right. exists gp. apply nth_error_app_some. exact H.
+  - intros (gp & H). exists gp. apply nth_error_app_some. exact H.
+Qed.
+
+Lemma ctx_ok_ne c T p : ctx_ok c T p -> T <> [].
+Proof.
+  destruct c; cbn [ctx_ok].
+  - intros [(_ & x & T' & -> & _) | (gp & H)]; [discriminate|]. intros ->. destruct p; discriminate.
+  - intros (gp & H) ->. destruct p; discriminate.
+Qed.
+
+Lemma ctx_ok_restore c T p : ctx_ok c T p -> restore T p = (post_st c, false).
+Proof.
+  destruct c; cbn [ctx_ok]; unfold restore, tget.
+  - intros [(-> & x & T' & -> & Hx) | (gp & H)].
+    + cbn. destruct x; try reflexivity; discriminate.
+    + rewrite H. reflexivity.
+  - intros (gp & H). rewrite H. reflexivity.
+Qed.
+
+Definition fctx (T : ttape) (p : nat) : Prop := (p = 0 /\ T = []) \/ ctx_ok CObj T p.
+
+Lemma fctx_push T p x X : fctx T p -> is_cont_tok x = false -> ctx_ok CObj (T ++ x :: X) p.
+Proof.
+  intros [(-> & ->) | H] Hx.
+  - left. split; [reflexivity|]. exists x, X. split; [reflexivity | exact Hx].
+  - apply ctx_ok_app. exact H.
+Qed.
+
+Lemma reach_val_open' c g rest m p t :
+  gap_ok g ->
+  reaches (mkps (g ++ 123%N :: rest) (pre_st c) m p t) (mkps rest SOpen m p (tpush t (TArray 0 false))).
+Proof. intros Hg. destruct c; [apply (reach_val_open true) | apply (reach_val_open false)]; exact Hg. Qed.
+
+(* ------------------------------------------------------------------ first tokens *)
+Definition tok_starts (P : N -> Prop) (ts : list rtok) : Prop :=
+  match ts with [] => False | t :: _ => exists c r, fst t = c :: r /\ P c end.
+
+Lemma tok_starts_impl (P Q : N -> Prop) ts : (forall c, P c -> Q c) -> tok_starts P ts -> tok_starts Q ts.
+Proof. intros H. destruct ts as [|t ts]; [exact (fun x => x)|]. intros (c & r & E & Hc). exists c, r. auto. Qed.
+
+Definition value_start (c : N) : Prop := scalar_start c = true \/ c = 123%N.
+
+Lemma value_start_sig c : value_start c -> significant c = true.
+Proof. intros [H| ->]; [apply scalar_start_facts in H; tauto | reflexivity]. Qed.
+
+Lemma value_first v more : wf_value v = true -> tok_starts value_start (toks_value v ++ more).
+Proof.
+  intros H. destruct v; cbn [toks_value app tok_starts lbrace fst].
+  - cbn [wf_value] in H. destruct (scalar_bytes_hd _ _ H) as (c & r & E & Hc). exists c, r. split; [exact E | left; exact Hc].
+  - exists 123%N, []. split; [reflexivity | right; reflexivity].
+  - exists 123%N, []. split; [reflexivity | right; reflexivity].
+  - exists 123%N, []. split; [reflexivity | right; reflexivity].
+  - cbn [wf_value] in H. repeat (apply andb_prop in H; destruct H as [H ?]).
+    destruct (scalar_bytes_hd Unq name H) as (c & r & E & Hc). exists c, r. split; [exact E | left; exact Hc].
+Qed.
+
+Lemma render_skip (P : N -> Prop) g ts i :
+  (forall j, gap_ok (g j)) -> (forall c, P c -> significant c = true) -> tok_starts P ts ->
+  exists c r, skip_ws_t (render_toks g ts i) = Some (c :: r) /\ P c.
+Proof.
+  intros Hg Hs Ht. destruct ts as [|t ts]; [destruct Ht|]. destruct Ht as (c & r & E & Hc).
+  exists c, (r ++ render_toks g ts (S i)). split; [|exact Hc].
+  cbn [render_toks]. rewrite E. cbn [app]. apply skip_ws_gap_sig; auto.
+Qed.
+
+Lemma render_hdP (P : N -> Prop) g ts i :
+  (forall j, gap_ok (g j)) -> (forall c, is_ws_t c = true -> P c) -> P 35%N -> tok_starts P ts ->
+  hdP P (render_toks g ts i).
+Proof.
+  intros Hg Hws H35 Ht. destruct ts as [|t ts]; [destruct Ht|]. destruct Ht as (c & r & E & Hc).
+  cbn [render_toks]. rewrite E. apply hdP_gap; auto.
+Qed.
+
+Lemma sep_ok_app g a : forall b i, sep_ok g (a ++ b) i -> sep_ok g b (i + length a).
+Proof.
+  induction a as [|t a IH]; intros b i H; cbn [app length] in *.
+  - rewrite Nat.add_0_r. exact H.
+  - cbn [sep_ok] in H. destruct H as [_ H]. apply IH in H. replace (i + S (length a)) with (S i + length a) by lia. exact H.
+Qed.
+
+(* ------------------------------------------------------------------ the per-construct statements *)
+Definition Vlemma (c : vctx) (v : value) : Prop :=
+  forall g i more T p, (forall j, gap_ok (g j)) -> sep_ok g (toks_value v ++ more) i -> ctx_ok c T p ->
+  reaches (mkps (render_toks g (toks_value v ++ more) i) (pre_st c) false p T)
+          (mkps (render_toks g more (i + length (toks_value v))) (post_st c) false p (T ++ flat_value (length T) v)).
+
+(* after the opening brace has been consumed and the placeholder pushed *)
+Definition Blemma (c : vctx) (v : value) : Prop :=
+  forall g i more T p, (forall j, gap_ok (g j)) -> sep_ok g (tl (toks_value v) ++ more) i -> ctx_ok c T p ->
+  reaches (mkps (render_toks g (tl (toks_value v) ++ more) i) SOpen false p (T ++ [TArray 0 false]))
+          (mkps (render_toks g more (i + length (tl (toks_value v)))) (post_st c) false p (T ++ flat_value (length T) v)).
+
+(* operator and value of a field, the key being on the tape already *)
+Definition FRlemma (op : option operator) (v : value) : Prop :=
+  forall g i more T p, (forall j, gap_ok (g j)) -> sep_ok g (optok op ++ toks_value v ++ more) i -> ctx_ok CObj T p ->
+  reaches (mkps (render_toks g (optok op ++ toks_value v ++ more) i) SKvs false p T)
+          (mkps (render_toks g more (i + length (optok op) + length (toks_value v))) SKey false p
+                (T ++ op_toks false op ++ flat_value (length T + length (op_toks false op)) v)).
+
+Definition F1lemma (f : field) : Prop :=
+  forall g i more T p, (forall j, gap_ok (g j)) -> sep_ok g (toks_field f ++ more) i -> fctx T p ->
+  reaches (mkps (render_toks g (toks_field f ++ more) i) SKey false p T)
+          (mkps (render_toks g more (i + length (toks_field f))) SKey false p (T ++ flat_field false (length T) f)).
+
+Definition Flemma (fs : fields) : Prop :=
+  forall g i more T p, (forall j, gap_ok (g j)) -> sep_ok g (toks_fields fs ++ more) i -> fctx T p ->
+  reaches (mkps (render_toks g (toks_fields fs ++ more) i) SKey false p T)
+          (mkps (render_toks g more (i + length (toks_fields fs))) SKey false p (T ++ flat_fields false (length T) fs)).
+
+Definition Ilemma (vs : values) : Prop :=
+  forall g i more T p, (forall j, gap_ok (g j)) -> sep_ok g (toks_values vs ++ more) i -> ctx_ok CArr T p ->
+  reaches (mkps (render_toks g (toks_values vs ++ more) i) SArrVal false p T)
+          (mkps (render_toks g more (i + length (toks_values vs))) SArrVal false p (T ++ flat_values (length T) vs)).
+
+Lemma op_first_not_eq o : obj_first_op (Some o) = true ->
+  exists c r, op_symbol o = c :: r /\ obj_byte c = true /\ significant c = true.
+Proof. destruct o; cbn; try discriminate; intros _; eexists _, _; repeat split. Qed.
+
+(* operator + value, from the value lemma *)
+Lemma FR_of_V op v : wf_value v = true -> (op = None -> is_container v = true) -> Vlemma CObj v -> FRlemma op v.
+Proof.
+  intros Hwf Hop HV g i more T p Hg Hsep Hctx. destruct op as [o|]; cbn [optok app op_toks] in *.
+  - cbn [sep_ok] in Hsep. destruct Hsep as [_ Hsep]. rewrite render_toks_cons. cbn [fst].
+    eapply reaches_trans.
+    { apply reach_kvs_op; [apply Hg|]. apply render_hdP; [exact Hg | | discriminate |].
+      - intros c Hc ->. discriminate.
+      - eapply tok_starts_impl; [|apply value_first; exact Hwf].
+        intros c [Hc| ->]; [|discriminate]. intros ->. discriminate. }
+    eapply reaches_eq; [apply (HV g (S i) more (T ++ op_toks false (Some o)) p Hg Hsep); apply ctx_ok_app; exact Hctx|].
+    rewrite app_length, <- app_assoc. cbn [length]. f_equal. f_equal. lia.
+  - specialize (Hop eq_refl).
+    assert (exists body, toks_value v = lbrace :: body) as (body & Ebody) by (destruct v; try discriminate; eexists; reflexivity).
+    assert (Hd : render_toks g (toks_value v ++ more) i = g i ++ 123%N :: render_toks g (body ++ more) (S i))
+      by (rewrite Ebody; reflexivity).
+    eapply reaches_trans.
+    { rewrite Hd. apply reach_kvs_brace. apply Hg. }
+    rewrite <- Hd.
+    eapply reaches_eq; [apply (HV g i more T p Hg Hsep Hctx)|].
+    cbn [length app]. rewrite !Nat.add_0_r. reflexivity.
+Qed.
+
+(* ------------------------------------------------------------------ per-construct lemmas *)
+Scheme value_mind := Induction for value Sort Prop
+with field_mind := Induction for field Sort Prop
+with fields_mind := Induction for fields Sort Prop
+with values_mind := Induction for values Sort Prop.
+Combined Scheme doc_mutind from value_mind, field_mind, fields_mind, values_mind.
+
+(* the number of tape tokens does not depend on where the construct starts *)
+Lemma flat_len_indep :
+  (forall v a b, length (flat_value a v) = length (flat_value b v)) /\
+  (forall f m a b, length (flat_field m a f) = length (flat_field m b f)) /\
+  (forall fs m a b, length (flat_fields m a fs) = length (flat_fields m b fs)) /\
+  (forall vs a b, length (flat_values a vs) = length (flat_values b vs)).
+Proof.
+  apply doc_mutind.
+  - reflexivity.
+  - intros fs Hfs tl Htl a b. cbn [flat_value]. cbn [length]. rewrite !app_length. rewrite (Hfs false (S a) (S b)).
+    f_equal. f_equal. f_equal. destruct tl; [reflexivity|]. cbn [length]. f_equal. apply Htl.
+  - intros items H a b. cbn [flat_value length]. rewrite !app_length. rewrite (H (S a) (S b)). reflexivity.
+  - intros items H kvs Hk a b. cbn [flat_value length]. rewrite !app_length. cbn [length]. rewrite !app_length.
+    rewrite (H (S a) (S b)). f_equal. f_equal. f_equal. f_equal. apply Hk.
+  - intros name v H a b. cbn [flat_value length]. f_equal. apply H.
+  - intros k key op v H m a b. cbn [flat_field length]. rewrite !app_length. f_equal. f_equal. apply H.
+  - reflexivity.
+  - intros name u fs H m a b. cbn [flat_field length]. rewrite !app_length. f_equal. f_equal. f_equal. apply H.
+  - reflexivity.
+  - intros f Hf fs Hfs m a b. cbn [flat_fields]. rewrite !app_length. rewrite (Hf m a b). f_equal. apply Hfs.
+  - reflexivity.
+  - intros v Hv vs Hvs a b. cbn [flat_values]. rewrite !app_length. rewrite (Hv a b). f_equal. apply Hvs.
+Qed.
+
+Definition vlen (v : value) : nat := length (flat_value 0 v).
+Definition fslen (m : bool) (fs : fields) : nat := length (flat_fields m 0 fs).
+Definition vslen (vs : values) : nat := length (flat_values 0 vs).
+Lemma flat_value_len a v : length (flat_value a v) = vlen v.
+Proof. apply (proj1 flat_len_indep). Qed.
+Lemma flat_fields_len m a fs : length (flat_fields m a fs) = fslen m fs.
+Proof. apply (proj1 (proj2 (proj2 flat_len_indep))). Qed.
+Lemma flat_values_len a vs : length (flat_values a vs) = vslen vs.
+Proof. apply (proj2 (proj2 (proj2 flat_len_indep))). Qed.
+
+(* equalities between final states: same shape, offsets equal up to linear arithmetic *)
+Ltac tape_eq :=
+  rewrite <- ?app_assoc; cbn [app]; rewrite <- ?app_assoc;
+  rewrite ?flat_value_len, ?flat_fields_len, ?flat_values_len;
+  repeat match goal with
+  | |- @eq nat _ _ => lia
+  | |- _ => progress f_equal
+  end.
+
+Lemma V_scalar c k s : wf_scalar k s = true -> Vlemma c (VScalar k s).
+Proof.
+  intros Hwf g i more T p Hg Hsep Hctx. cbn [toks_value app length flat_value] in *.
+  cbn [sep_ok] in Hsep. destruct Hsep as [Hs _]. rewrite render_toks_cons. cbn [fst stok].
+  assert (Hb : k = Unq -> starts_boundary (render_toks g more (S i))) by (intros ->; apply Hs; reflexivity).
+  rewrite Nat.add_1_r. destruct c; [apply reach_objval_scalar | apply reach_arrval_scalar]; auto.
+Qed.
+
+Lemma V_of_B c v : is_container v = true -> Blemma c v -> Vlemma c v.
+Proof.
+  intros Hc HB g i more T p Hg Hsep Hctx.
+  assert (exists body, toks_value v = lbrace :: body) as (body & Ebody) by (destruct v; try discriminate; eexists; reflexivity).
+  unfold Blemma in HB. rewrite Ebody in *. cbn [tl app length] in *.
+  cbn [sep_ok] in Hsep. destruct Hsep as [_ Hsep].
+  rewrite render_toks_cons. cbn [fst lbrace app].
+  eapply reaches_trans; [apply reach_val_open'; apply Hg|].
+  eapply reaches_eq; [apply (HB g (S i) more T p Hg Hsep Hctx)|].
+  f_equal. f_equal. lia.
+Qed.
+
+Lemma B_array_nil c : Blemma c (VArray VNil).
+Proof.
+  intros g i more T p Hg Hsep Hctx. cbn [toks_value tl toks_values app length] in *.
+  rewrite render_toks_cons. cbn [fst rbrace app].
+  eapply reaches_eq; [apply reach_open_close; [apply Hg | apply ctx_ok_restore, ctx_ok_app, Hctx]|].
+  cbn [flat_value flat_values length app]. rewrite Nat.add_0_r, Nat.add_1_r. reflexivity.
+Qed.
+
+Lemma items_first vs more : wf_items vs = true ->
+  tok_starts (fun c => value_start c \/ c = 125%N) (toks_values vs ++ rbrace :: more).
+Proof.
+  destruct vs as [|v vs]; cbn [toks_values app wf_items].
+  - intros _. exists 125%N, []. split; [reflexivity | right; reflexivity].
+  - intros H. repeat (apply andb_prop in H; destruct H as [H ?]).
+    rewrite <- app_assoc. eapply tok_starts_impl; [|apply value_first; assumption]. intros c Hc. left. exact Hc.
+Qed.
+
+Lemma nth_error_mid2 {A} (T : list A) x U X : nth_error ((T ++ x :: U) ++ X) (length T) = Some x.
+Proof. rewrite <- app_assoc. cbn [app]. apply nth_error_mid. Qed.
+
+Lemma value_start_not_obj c : value_start c \/ c = 125%N -> obj_byte c = false.
+Proof.
+  unfold obj_byte. intros [[H| ->]| ->]; [|reflexivity|reflexivity].
+  apply scalar_start_facts in H. destruct H as (_ & _ & _ & _ & _ & H60 & H62 & _ & H61). rewrite H60, H62, H61. reflexivity.
+Qed.
+
+Lemma value_start_or_close_sig c : value_start c \/ c = 125%N -> significant c = true.
+Proof. intros [H| ->]; [apply value_start_sig; exact H | reflexivity]. Qed.
+
+(* array whose first item is a scalar *)
+Lemma B_array_scalar c k s vs :
+  wf_scalar k s = true -> wf_items vs = true -> Ilemma vs -> Blemma c (VArray (VCons (VScalar k s) vs)).
+Proof.
+  intros Hwf Hwfs HI g i more T p Hg Hsep Hctx.
+  cbn [toks_value tl toks_values app length] in *. rewrite <- app_assoc in *. cbn [app] in *.
+  cbn [sep_ok] in Hsep. destruct Hsep as [Hs Hsep]. rewrite render_toks_cons. cbn [fst stok].
+  assert (Hb : k = Unq -> starts_boundary (render_toks g (toks_values vs ++ rbrace :: more) (S i))) by (intros ->; apply Hs; reflexivity).
+  destruct (render_skip _ g _ (S i) Hg value_start_or_close_sig (items_first vs more Hwfs))
+    as (c2 & r2 & Hsk & Hc2).
+  eapply reaches_trans.
+  { eapply reaches_eq; [apply (reach_open_scalar (g i) k s _ p T (TArray 0 false) c2 r2 (Hg i) Hwf Hb Hsk)|].
+    rewrite (value_start_not_obj _ Hc2). reflexivity. }
+  eapply reaches_trans.
+  { apply (HI g (S i) (rbrace :: more) (T ++ [TArray p false; scalar_tok k s]) (length T) Hg Hsep).
+    exists p. apply nth_error_mid. }
+  apply sep_ok_app in Hsep. rewrite render_toks_cons. cbn [fst rbrace app].
+  eapply reaches_eq.
+  { rewrite <- app_assoc. cbn [app].
+    apply (reach_arrval_close (g (S i + length (toks_values vs))) _ false T p false _ (post_st c) false true (Hg _)).
+    - eapply ctx_ok_ne; eassumption.
+    - apply (ctx_ok_restore c). apply (ctx_ok_app c T p _ Hctx). }
+  cbn [flat_value flat_values app length]. rewrite !app_length. cbn [length app].
+  replace (S (length T) + 1) with (length T + 2) by lia.
+  repeat (f_equal; try lia).
+Qed.
+
+Definition body_start (c : N) : Prop := scalar_start c = true \/ c = 123%N \/ c = 91%N.
+
+Lemma body_start_sig c : body_start c -> significant c = true.
+Proof. intros [H|[->| ->]]; [apply scalar_start_facts in H; tauto | reflexivity | reflexivity]. Qed.
+
+Lemma body_start_not_close c : body_start c -> c <> 125%N.
+Proof. intros [H|[->| ->]]; [|discriminate|discriminate]. intros ->. discriminate. Qed.
+
+Lemma field_first f more : wf_field f = true ->
+  tok_starts (fun c => scalar_start c = true \/ c = 91%N) (toks_field f ++ more).
+Proof.
+  destruct f; cbn [toks_field app tok_starts wf_field fst stok].
+  - intros H. repeat (apply andb_prop in H; destruct H as [H ?]).
+    destruct (scalar_bytes_hd _ _ H) as (c & r & E & Hc). exists c, r. split; [exact E | left; exact Hc].
+  - intros _. eexists _, _. split; [reflexivity | right; reflexivity].
+  - intros _. eexists _, _. split; [reflexivity | right; reflexivity].
+Qed.
+
+(* what follows the opening brace of a non-empty container *)
+Ltac andb_split := repeat match goal with H : andb _ _ = true |- _ => apply andb_prop in H; destruct H end.
+
+Lemma body_first v more : wf_value v = true -> is_container v = true -> is_empty_array v = false ->
+  tok_starts body_start (tl (toks_value v) ++ more).
+Proof.
+  intros Hwf Hc Hne. destruct v as [| fs tlv | items | items kvs |]; try discriminate; cbn [toks_value tl wf_value] in *.
+  - andb_split. destruct fs as [|f fs]; [discriminate|]. cbn [toks_fields wf_fields] in *. andb_split.
+    rewrite <- !app_assoc. eapply tok_starts_impl; [|apply field_first; eassumption].
+    intros c [Hx| ->]; [left; exact Hx | right; right; reflexivity].
+  - destruct items as [|v vs]; [discriminate|]. cbn [toks_values wf_items] in *. andb_split.
+    rewrite <- !app_assoc. eapply tok_starts_impl; [|apply value_first; eassumption].
+    intros c [Hx| ->]; [left; exact Hx | right; left; reflexivity].
+  - andb_split. destruct items as [|v vs]; [discriminate|]. cbn [toks_values wf_items] in *. andb_split.
+    rewrite <- !app_assoc. eapply tok_starts_impl; [|apply value_first; eassumption].
+    intros c [Hx| ->]; [left; exact Hx | right; left; reflexivity].
+Qed.
+
+(* array whose first item is a container *)
+Lemma B_array_cont c v vs :
+  wf_value v = true -> is_container v = true -> is_empty_array v = false ->
+  Ilemma (VCons v vs) -> Blemma c (VArray (VCons v vs)).
+Proof.
+  intros Hwf Hcont Hne HI g i more T p Hg Hsep Hctx.
+  cbn [toks_value tl] in *. rewrite <- app_assoc in *. cbn [app] in *.
+  assert (exists body, toks_value v = lbrace :: body) as (body & Ebody) by (destruct v; try discriminate; eexists; reflexivity).
+  assert (Hd : render_toks g (toks_values (VCons v vs) ++ rbrace :: more) i =
+               g i ++ 123%N :: render_toks g (body ++ toks_values vs ++ rbrace :: more) (S i)).
+  { cbn [toks_values]. rewrite Ebody. cbn [app]. rewrite <- app_assoc. reflexivity. }
+  destruct (render_skip _ g _ (S i) Hg body_start_sig (body_first v (toks_values vs ++ rbrace :: more) Hwf Hcont Hne))
+    as (c2 & r2 & Hsk & Hc2).
+  rewrite Ebody in Hsk. cbn [tl] in Hsk.
+  eapply reaches_trans.
+  { rewrite Hd. apply (reach_open_brace (g i) _ false p T (TArray 0 false) c2 r2 (Hg i) Hsk). apply body_start_not_close. exact Hc2. }
+  rewrite <- Hd.
+  eapply reaches_trans.
+  { apply (HI g i (rbrace :: more) (T ++ [TArray p false]) (length T) Hg Hsep). exists p. apply nth_error_mid. }
+  apply sep_ok_app in Hsep. rewrite render_toks_cons. cbn [fst rbrace app].
+  eapply reaches_eq.
+  { rewrite <- app_assoc. cbn [app].
+    apply (reach_arrval_close (g (i + length (toks_values (VCons v vs)))) _ false T p false _ (post_st c) false true (Hg _)).
+    - eapply ctx_ok_ne; eassumption.
+    - apply (ctx_ok_restore c). apply (ctx_ok_app c T p _ Hctx). }
+  cbn [flat_value]. rewrite !app_length. cbn [length app].
+  replace (length T + 1) with (S (length T)) by lia.
+  repeat (f_equal; try lia).
+Qed.
+
+(* object: first field `key op value` with op one of = == < <= > >= *)
+Lemma B_object c k key o v fs :
+  wf_scalar k key = true -> obj_first_op (Some o) = true -> FRlemma (Some o) v -> Flemma fs ->
+  Blemma c (VObject (FCons (Field k key (Some o) v) fs) VNil).
+Proof.
+  intros Hkey Hop HFR HF g i more T p Hg Hsep Hctx.
+  cbn [toks_value tl toks_fields toks_field toks_values app] in *.
+  rewrite <- ?app_assoc in *. cbn [app] in *. rewrite <- ?app_assoc in *.
+  cbn [sep_ok] in Hsep. destruct Hsep as [Hs Hsep]. rewrite render_toks_cons. cbn [fst stok].
+  assert (Hb : k = Unq -> starts_boundary (render_toks g (optok (Some o) ++ toks_value v ++ toks_fields fs ++ rbrace :: more) (S i)))
+    by (intros ->; apply Hs; reflexivity).
+  destruct (op_first_not_eq o Hop) as (c2 & r2 & Eo & Hobj & Hsig).
+  assert (Hsk : skip_ws_t (render_toks g (optok (Some o) ++ toks_value v ++ toks_fields fs ++ rbrace :: more) (S i)) =
+                Some (c2 :: r2 ++ render_toks g (toks_value v ++ toks_fields fs ++ rbrace :: more) (S (S i)))).
+  { cbn [optok app render_toks fst]. rewrite Eo. cbn [app]. apply skip_ws_gap_sig; [apply Hg | exact Hsig]. }
+  eapply reaches_trans.
+  { eapply reaches_eq; [apply (reach_open_scalar (g i) k key _ p T (TArray 0 false) _ _ (Hg i) Hkey Hb Hsk)|].
+    rewrite Hobj. reflexivity. }
+  eapply reaches_trans.
+  { apply (HFR g (S i) (toks_fields fs ++ rbrace :: more) (T ++ [TObject p false; scalar_tok k key]) (length T) Hg Hsep).
+    right. exists p. apply nth_error_mid. }
+  apply sep_ok_app in Hsep. apply sep_ok_app in Hsep.
+  eapply reaches_trans.
+  { apply (HF g _ (rbrace :: more) _ (length T) Hg Hsep).
+    right. right. exists p. rewrite <- app_assoc. cbn [app]. apply nth_error_mid. }
+  apply sep_ok_app in Hsep. rewrite render_toks_cons. cbn [fst rbrace app].
+  eapply reaches_eq.
+  { rewrite <- !app_assoc. cbn [app].
+    apply (reach_key_close (g _) _ false T p _ (post_st c) false (Hg _)).
+    - eapply ctx_ok_ne; eassumption.
+    - apply (ctx_ok_restore c). apply (ctx_ok_app c T p _ Hctx). }
+  cbn [flat_value flat_fields flat_field values_nonempty]. rewrite !app_length. cbn [length app]. rewrite !app_length. cbn [length].
+  tape_eq.
+Qed.
+
+(* header: bare word, then `{` seen in state Key rewrites the word into a Header token *)
+Lemma V_header name v :
+  wf_unq name = true -> wf_value v = true -> is_container v = true -> is_empty_array v = false ->
+  Blemma CObj v -> Vlemma CObj (VHeader name v).
+Proof.
+  intros Hname Hwf Hcont Hne HB g i more T p Hg Hsep Hctx.
+  assert (exists body, toks_value v = lbrace :: body) as (body & Ebody) by (destruct v; try discriminate; eexists; reflexivity).
+  unfold Blemma in HB. cbn [toks_value app length] in *. rewrite Ebody in *. cbn [tl app length] in *.
+  cbn [sep_ok] in Hsep. destruct Hsep as (Hs & _ & Hsep).
+  rewrite !render_toks_cons. cbn [fst lbrace app].
+  eapply reaches_trans.
+  { apply (reach_objval_scalar (g i) Unq name _ false p T (Hg i) Hname). intros _. apply Hs. reflexivity. }
+  destruct (render_skip _ g _ (S (S i)) Hg body_start_sig (body_first v more Hwf Hcont Hne)) as (c2 & r2 & Hsk & Hc2).
+  rewrite Ebody in Hsk. cbn [tl] in Hsk.
+  eapply reaches_trans.
+  { apply (reach_key_header (g (S i)) _ false p T name c2 r2 (Hg _) Hsk). apply body_start_not_close. exact Hc2. }
+  eapply reaches_eq.
+  { replace (T ++ [THeader name; TArray 0 false]) with ((T ++ [THeader name]) ++ [TArray 0 false]) by (rewrite <- app_assoc; reflexivity).
+    apply (HB g (S (S i)) more (T ++ [THeader name]) p Hg Hsep). apply ctx_ok_app. exact Hctx. }
+  cbn [flat_value post_st]. rewrite app_length. cbn [length]. tape_eq.
+Qed.
+
+Lemma F1_field k key op v : wf_scalar k key = true -> FRlemma op v -> F1lemma (Field k key op v).
+Proof.
+  intros Hkey HFR g i more T p Hg Hsep Hctx.
+  cbn [toks_field app] in *. rewrite <- ?app_assoc in *.
+  cbn [sep_ok] in Hsep. destruct Hsep as [Hs Hsep]. rewrite render_toks_cons. cbn [fst stok].
+  eapply reaches_trans.
+  { apply (reach_key_scalar (g i) k key _ false p T (Hg i) Hkey). intros ->. apply Hs. reflexivity. }
+  eapply reaches_eq.
+  { apply (HFR g (S i) more _ p Hg Hsep). unfold tpush. apply fctx_push; [exact Hctx|]. destruct k; reflexivity. }
+  cbn [flat_field length]. unfold tpush. rewrite !app_length. cbn [length]. tape_eq.
+Qed.
+
+Lemma F_cons f fs :
+  (exists x X, forall off, flat_field false off f = x :: X off /\ is_cont_tok x = false) ->
+  F1lemma f -> Flemma fs -> Flemma (FCons f fs).
+Proof.
+  intros Hhd H1 HF g i more T p Hg Hsep Hctx.
+  cbn [toks_fields] in *. rewrite <- ?app_assoc in *.
+  eapply reaches_trans; [apply (H1 g i (toks_fields fs ++ more) T p Hg Hsep Hctx)|].
+  apply sep_ok_app in Hsep.
+  eapply reaches_eq.
+  { apply (HF g _ more _ p Hg Hsep). right. destruct Hhd as (x & X & Hx). destruct (Hx (length T)) as [-> Hc].
+    apply fctx_push; assumption. }
+  cbn [flat_fields]. rewrite !app_length. tape_eq.
+Qed.
+
+Lemma I_cons v vs : Vlemma CArr v -> Ilemma vs -> Ilemma (VCons v vs).
+Proof.
+  intros HV HI g i more T p Hg Hsep Hctx.
+  cbn [toks_values] in *. rewrite <- ?app_assoc in *.
+  eapply reaches_trans; [apply (HV g i (toks_values vs ++ more) T p Hg Hsep Hctx)|].
+  apply sep_ok_app in Hsep.
+  eapply reaches_eq.
+  { apply (HI g _ more _ p Hg Hsep). apply (ctx_ok_app CArr). exact Hctx. }
+  cbn [flat_values]. rewrite !app_length. tape_eq.
+Qed.
+
+Lemma F_nil : Flemma FNil.
+Proof.
+  intros g i more T p Hg Hsep Hctx. cbn [toks_fields app length flat_fields]. rewrite Nat.add_0_r, app_nil_r. apply reaches_refl.
+Qed.
+
+Lemma I_nil : Ilemma VNil.
+Proof.
+  intros g i more T p Hg Hsep Hctx. cbn [toks_values app length flat_values]. rewrite Nat.add_0_r, app_nil_r. apply reaches_refl.
+Qed.
+
+(* ------------------------------------------------------------------ stage 2: the plain grammar *)
+Definition Pv (v : value) : Prop :=
+  wf_value v = true -> plain_value v = true ->
+  forall c, ((c = CArr -> is_header v = false) -> Vlemma c v) /\ (is_container v = true -> Blemma c v).
+Definition Pf (f : field) : Prop :=
+  wf_field f = true -> plain_field f = true ->
+  F1lemma f /\ match f with Field _ _ op v => FRlemma op v | _ => True end.
+Definition Pfs (fs : fields) : Prop :=
+  wf_fields fs = true -> plain_fields fs = true ->
+  Flemma fs /\ match fs with FCons (Field _ _ op v) fs' => FRlemma op v /\ Flemma fs' | _ => True end.
+Definition Pvs (vs : values) : Prop :=
+  wf_items vs = true -> plain_values vs = true ->
+  Ilemma vs /\ match vs with VCons _ vs' => Ilemma vs' | VNil => True end.
+
+Lemma plain_all :
+  (forall v, Pv v) /\ (forall f, Pf f) /\ (forall fs, Pfs fs) /\ (forall vs, Pvs vs).
+Proof.
+  apply doc_mutind.
+  - (* scalar *)
+    intros k s Hwf _ c. split; [intros _; apply V_scalar; exact Hwf | discriminate].
+  - (* object *)
+    intros fs IHfs tlv IHtl Hwf Hpl c. cbn [wf_value plain_value] in Hwf, Hpl. andb_split.
+    destruct tlv; [|discriminate].
+    assert (HB : Blemma c (VObject fs VNil)).
+    { destruct (IHfs ltac:(assumption) ltac:(assumption)) as [_ Hparts].
+      destruct fs as [|f fs']; [discriminate|]. destruct f as [k key op v| |]; try discriminate.
+      cbn [first_field_ok] in *. destruct op as [o|]; [|discriminate].
+      destruct Hparts as [HFR HF'].
+      cbn [wf_fields wf_field] in *. andb_split.
+      apply B_object; assumption. }
+    split; [intros _; apply V_of_B; [reflexivity | exact HB] | intros _; exact HB].
+  - (* array *)
+    intros items IH Hwf Hpl c. cbn [wf_value plain_value] in Hwf, Hpl. andb_split.
+    assert (HB : Blemma c (VArray items)).
+    { destruct (IH ltac:(assumption) ltac:(assumption)) as [HI Hparts].
+      destruct items as [|v vs]; [apply B_array_nil|].
+      cbn [wf_items] in *. andb_split.
+      destruct v as [k s| | | |]; try discriminate.
+      - apply B_array_scalar; assumption.
+      - apply B_array_cont; auto.
+      - apply B_array_cont; auto. destruct items; [discriminate | reflexivity]. }
+    split; [intros _; apply V_of_B; [reflexivity | exact HB] | intros _; exact HB].
+  - (* array -> key-value list: not in this sub-grammar *)
+    intros items _ kvs _ _ Hpl. discriminate.
+  - (* header *)
+    intros name v IH Hwf Hpl c. cbn [wf_value plain_value] in Hwf, Hpl. andb_split.
+    split; [|discriminate]. intros Hc. destruct c; [|specialize (Hc eq_refl); discriminate].
+    apply V_header; try assumption.
+    + match goal with H : negb _ = true |- _ => apply Bool.negb_true_iff in H; exact H end.
+    + apply (IH ltac:(assumption) ltac:(assumption) CObj). assumption.
+  - (* field *)
+    intros k key op v IH Hwf Hpl. cbn [wf_field plain_field] in Hwf, Hpl. andb_split.
+    assert (HFR : FRlemma op v).
+    { apply FR_of_V; [assumption | | apply (IH ltac:(assumption) ltac:(assumption) CObj); discriminate].
+      intros ->. assumption. }
+    split; [apply F1_field; assumption | exact HFR].
+  - intros name u s _ Hpl. discriminate.
+  - intros name u fs _ _ Hpl. discriminate.
+  - (* no field *)
+    intros _ _. split; [apply F_nil | exact I].
+  - (* fields *)
+    intros f IHf fs IHfs Hwf Hpl. cbn [wf_fields plain_fields] in Hwf, Hpl. andb_split.
+    destruct (IHf ltac:(assumption) ltac:(assumption)) as [HF1 Hparts].
+    destruct (IHfs ltac:(assumption) ltac:(assumption)) as [HF _].
+    split.
+    + apply F_cons; try assumption. destruct f as [k key op v| |]; try discriminate.
+      exists (scalar_tok k key), (fun off => op_toks false op ++ flat_value (S off + length (op_toks false op)) v).
+      intros off. split; [reflexivity | destruct k; reflexivity].
+    + destruct f as [k key op v| |]; [split; assumption | exact I | exact I].
+  - intros _ _. split; [apply I_nil | exact I].
+  - (* items *)
+    intros v IHv vs IHvs Hwf Hpl. cbn [wf_items plain_values] in Hwf, Hpl. andb_split.
+    destruct (IHvs ltac:(assumption) ltac:(assumption)) as [HI _].
+    split; [|exact HI].
+    apply I_cons; [|exact HI].
+    apply (IHv ltac:(assumption) ltac:(assumption) CArr). intros _.
+    match goal with H : negb _ = true |- _ => apply Bool.negb_true_iff in H; exact H end.
+Qed.
+
+Theorem parse_render_plain : forall d l,
+  plain_fields d = true -> wf_doc d -> wf_layout d l -> parse (render d l) = Ok (flatten d, bom l).
+Proof.
+  intros d l Hpl Hwf Hl. eapply parse_of_reaches; [exact Hl|].
+  destruct Hl as (Hg & Hsep & _).
+  destruct (proj1 (proj2 (proj2 plain_all)) d Hwf Hpl) as [HF _].
+  specialize (HF (gap l) 0 [] [] 0 Hg). rewrite !app_nil_r in HF.
+  apply HF; [exact Hsep | left; split; reflexivity].
+Qed.
